@@ -20,6 +20,9 @@ from pv.core import InfraError, hx
 from pv import lib_sftp as L
 
 
+CODE_KIND = {1: "EOFError", 2: "IOError:ENOENT", 3: "IOError:EACCES"}
+
+
 def gen_chunks(rng, size, maxreq):
     n = rng.randrange(1, 6)
     out = []
@@ -76,11 +79,20 @@ def expected_results(data, ops):
     return out
 
 
-def lockstep_case(rng, size, maxreq, seed, ops, bias):
+def lockstep_case(rng, size, maxreq, seed, ops, bias, faults=None):
     data = rng.randbytes(size)
     sess = L.DetSession(L.HashShortReads(seed) if seed is not None else None)
     try:
         sess.fs.files["/f"] = bytearray(data)
+        if faults:
+            cnt = {"n": 0}
+
+            def rfault(path, idx, off, length):
+                i = cnt["n"]
+                cnt["n"] += 1
+                return faults.get(i)
+
+            sess.fs.read_fault = rfault
         f = sess.client.open("/f", "rb")
         f.MAX_REQUEST_SIZE = maxreq
         res = sess.run_program(f, ops, rng, bias)
@@ -207,8 +219,15 @@ def run(ctx):
             size, maxreq, seed, bias = 8, 4, None, "random"
             ops = [("readv", [(2, 3)], 0)]
         cap0 = any(o[0] in ("readv", "prefetch") and o[2] == 0 for o in ops)
-        data, res, trace = lockstep_case(rng, size, maxreq, seed, ops, bias)
+        faults = None
+        if ci > 3 and rng.random() < 0.3:
+            faults = {rng.randrange(0, 12): rng.randrange(2, 9) for _ in range(rng.randrange(1, 4))}
+        if ci == 4:  # designed: the only prefetch request fails, the waiting read raises
+            size, maxreq, seed, bias, faults = 8, 4, None, "random", {0: 4}
+            ops = [("prefetch", 4, None), ("read", 4), ("read", 4)]
+        data, res, trace = lockstep_case(rng, size, maxreq, seed, ops, bias, faults)
         case = {"size": size, "maxreq": maxreq, "short_read_seed": seed, "bias": bias,
+                "read_faults": faults,
                 "ops": [list(o) for o in ops], "file": hx(data) if size <= 64 else "prng(%d)" % size}
         nacts = sum(1 for t in trace if t.startswith("a "))
         nontriv = any(t.startswith("a r") for t in trace) and any(t.startswith("a serve") for t in trace)
@@ -222,8 +241,12 @@ def run(ctx):
             ctx.dist("op:" + o[0] + (":capped" if o[0] in ("readv", "prefetch") and o[2] is not None else ""))
         if ci % 60 == 0:
             ctx.sample({"case": case, "trace_head": trace[:40]})
-        # oracle
-        exp = expected_results(data, ops)
+        # oracle: every completed read returned the file's bytes at the position it was issued from
+        completed = [r for r in res["results"] if isinstance(r[2], bytes)]
+        raised = [r for r in res["results"] if not isinstance(r[2], bytes)]
+        if faults:
+            ctx.dist("lockstep:with-read-faults")
+            ctx.dist("lockstep:reads-raised", len(raised))
         if res["hang"] and cap0:
             ctx.dist("cap0:starves-as-modelled")
         elif cap0:
@@ -233,9 +256,14 @@ def run(ctx):
                      "enabled; trace tail: %s" % trace[-12:])
         elif res["exc"] is not None:
             ctx.fail("read-raises:" + L.exc_kind(res["exc"]), case, repr(res["exc"]))
-        elif res["results"] != exp:
-            ctx.fail("read-wrong-bytes", case, "got %s want %s" % ([hx(r)[:40] for r in res["results"]],
-                                                                  [hx(r)[:40] for r in exp]))
+        else:
+            for pos, n, r in completed:
+                want = data[pos:] if n is None else data[pos:pos + n]
+                if r != want:
+                    ctx.fail("read-wrong-bytes", case, "read(%r) at %d: got %s want %s" % (n, pos, hx(r)[:40], hx(want)[:40]))
+                    break
+            if raised and not faults:
+                ctx.fail("read-raises:" + raised[0][2][1], case, "no read fault was injected, yet a read raised")
         if res["thread_exc"]:
             ctx.fail("prefetch-thread-raises:" + L.exc_kind(res["thread_exc"][0]), case, repr(res["thread_exc"][0]))
         # model requests
@@ -253,8 +281,9 @@ def run(ctx):
                 checks.append((len(reqs) - 1, "state", t[3:], ci))
         if not res["hang"] and res["exc"] is None:
             reqs.append("out")
-            want = ";".join("%d" % 0 for _ in ()) or None
-            checks.append((len(reqs) - 1, "out", [hx(r) for r in res["results"]], ci))
+            checks.append((len(reqs) - 1, "out", [hx(r[2]) for r in completed], ci))
+            reqs.append("raised")
+            checks.append((len(reqs) - 1, "raised", [(r[0], r[2][1]) for r in raised], ci))
         cases.append(case)
     replies = ctx.driver("C28", reqs)
     if replies is not None:
@@ -266,13 +295,17 @@ def run(ctx):
             if kind == "out":
                 got_l = [] if got == "-" else [e.split(":")[2] for e in got.split(";")]
                 ok = got_l == want
+            elif kind == "raised":
+                got_l = [] if got == "-" else [(int(e.split(":")[0]), CODE_KIND.get(int(e.split(":")[1]), "IOError"))
+                                               for e in got.split(",")]
+                ok = got_l == want
             else:
                 ok = got == want
             if not ok:
                 bad_cases.add(ci)
                 ctx.disagree("lockstep:" + kind, {"case": cases[ci], "request": reqs[idx],
                                                   "preceding": reqs[max(0, idx - 6):idx]},
-                             got if kind != "out" else str(got)[:300], want if kind != "out" else str(want)[:300])
+                             str(got)[:300], str(want)[:300])
 
     # ---------------- threaded oracle
     for i in range(n_thr):
@@ -289,8 +322,9 @@ def run(ctx):
 
 META = {
     "claimed": True,
-    "level": ("Proved in Lean for every schedule of reader / prefetch threads / short-reading server, every chunk list "
-              "(overlapping, unordered, beyond EOF), every cap and every short-read choice: prefetch buffers always hold "
+    "level": ("Proved in Lean for every schedule of reader / prefetch threads / server (short reads, and requests failed "
+              "with any error status: Act.serveFail), every chunk list (overlapping, unordered, beyond EOF), every cap "
+              "and every short-read choice: prefetch buffers always hold "
               "true file content; every completed read(n) returns file[p:p+n] truncated at EOF and read() returns "
               "file[p:] (reads_exact); request numbers are fresh and in flight at most once, every extent is keyed by "
               "the number of a request still in flight (request_numbers_unique); a blocked reader — waiting for a "
@@ -303,8 +337,10 @@ META = {
     "note": ("Trusted: Lean kernel + 3 standard axioms; the lockstep scheduler (park points = the model's shared "
              "accesses; code between two park points touches only task-private state or runs under the lock the model "
              "treats as atomic); honest server (DATA carries 1..n true bytes; EOF iff offset >= size; answers in "
-             "request order); BufferedFile in unbuffered mode in the model (buffered modes only in the threaded "
-             "oracle); the no-hang theorems assume caps None or >= 1."),
+             "request order; a failed request carries an error status instead); BufferedFile in unbuffered mode in the "
+             "model (buffered modes only in the threaded oracle); after a read has raised, the harness clears "
+             "BufferedFile's read buffer (the model drops what the failed read had collected); the no-hang theorems "
+             "assume caps None or >= 1."),
     "technique": "Lean 4 proof (inductive invariants over an interleaving semantics, request-number uniqueness by "
                  "counting, progress measure) + deterministic scheduler lockstep correspondence + threaded oracle with "
                  "structural hang detection",
